@@ -23,6 +23,8 @@ pub struct Rep {
     pub notice_at: Vec<u16>,
     pub pstatus_at: Option<u16>,
     pub err_at: Option<u16>,
+    #[serde(default)]
+    pub notice_len: u32,
 }
 
 #[derive(Clone, Debug, Serialize, Deserialize, PartialEq)]
@@ -31,6 +33,8 @@ pub enum Rq {
     Q(Vec<Rep>),
     /// empty query string
     EmptyQ,
+    /// a Sync on its own (pgcat may answer it itself; only the client-visible reply is asserted)
+    LoneSync,
     /// extended batch: per statement Parse, Bind, optional Describe, Execute(max_rows) [, Execute(0)] ; Sync
     B(Vec<(Rep, bool, i32)>),
     /// COPY TO STDOUT producing n CopyData of the given length
@@ -75,8 +79,9 @@ fn rep_strategy() -> BoxedStrategy<Rep> {
         prop::collection::vec(0u16..50, 0..3),
         prop::option::weighted(0.2, 0u16..50),
         prop::option::weighted(0.15, 0u16..50),
+        prop_oneof![4 => Just(0u32), 1 => 50u32..200, 2 => 8100u32..8300, 1 => Just(20_000u32)],
     )
-        .prop_map(|(kind, (rows, rowlen), notice_at, pstatus_at, err_at)| {
+        .prop_map(|(kind, (rows, rowlen), notice_at, pstatus_at, err_at, notice_len)| {
             let cap = |x: u16| if rows == 0 { 0 } else { x % (rows + 1) };
             Rep {
                 kind,
@@ -85,6 +90,7 @@ fn rep_strategy() -> BoxedStrategy<Rep> {
                 notice_at: notice_at.into_iter().map(cap).collect(),
                 pstatus_at: pstatus_at.map(cap),
                 err_at: err_at.map(cap),
+                notice_len,
             }
         })
         .boxed()
@@ -94,6 +100,7 @@ fn rq_strategy() -> BoxedStrategy<Rq> {
     prop_oneof![
         5 => prop::collection::vec(rep_strategy(), 1..4).prop_map(Rq::Q),
         1 => Just(Rq::EmptyQ),
+        1 => Just(Rq::LoneSync),
         4 => prop::collection::vec((rep_strategy(), any::<bool>(), prop_oneof![Just(0i32), Just(0i32), 1i32..6]), 1..3).prop_map(Rq::B),
         2 => (0u16..200, prop_oneof![0u32..100, 8000u32..8400, Just(30_000u32)], prop::collection::vec(0u16..200, 0..2))
             .prop_map(|(n, len, notice_at)| Rq::CopyOut { n, len, notice_at: notice_at.into_iter().map(|x| if n == 0 { 0 } else { x % (n + 1) }).collect() }),
@@ -162,6 +169,9 @@ fn directive(r: &Rep, chunks: &[u16]) -> String {
     }
     if !r.notice_at.is_empty() {
         d.push_str(&format!(" notice={}", r.notice_at.iter().map(|x| x.to_string()).collect::<Vec<_>>().join(",")));
+        if r.notice_len > 0 {
+            d.push_str(&format!(" noticelen={}", r.notice_len));
+        }
     }
     if let Some(p) = r.pstatus_at {
         d.push_str(&format!(" pstatus={}:IntervalStyle:iso_8601", p));
@@ -194,6 +204,7 @@ fn render(cli: &mut Cli, rq: &Rq, chunks: &[u16]) -> Vec<u8> {
             proto::query(&parts.join("; "))
         }
         Rq::EmptyQ => proto::query(""),
+        Rq::LoneSync => proto::sync(),
         Rq::B(items) => {
             let mut out = vec![];
             for (i, (r, desc, max)) in items.iter().enumerate() {
@@ -274,12 +285,31 @@ async fn run_case(c: &Case, ctx: &mut WorkerCtx) -> Outcome {
     let mut header_split = false;
     let mut pipelined = false;
     let mut copy = false;
+    let mut lone_sync_sent = 0usize;
+    let mut lone_sync_bad: Option<String> = None;
+    let mut lone_ranges: Vec<(usize, usize)> = vec![];
     'groups: for g in &c.groups {
         let mut bytes = vec![];
         let mut n_ready = 0usize;
         let mut copy_in: Option<(Vec<u32>, bool, crate::sqllex::Tag)> = None;
+        let mut kinds: Vec<bool> = vec![];
         for rq in &g.rqs {
-            bytes.extend_from_slice(&render(&mut cli, rq, &g.chunks));
+            let b = render(&mut cli, rq, &g.chunks);
+            if matches!(rq, Rq::LoneSync) {
+                lone_sync_sent += 1;
+            } else {
+                sent_all.extend_from_slice(&b);
+            }
+            bytes.extend_from_slice(&b);
+            match rq {
+                Rq::LoneSync => {
+                    kinds.push(true);
+                    n_ready += 1;
+                    continue;
+                }
+                _ => {}
+            }
+            kinds.push(false);
             match rq {
                 Rq::CopyIn { chunks, fail, pre_select_rows } => {
                     copy = true;
@@ -313,16 +343,24 @@ async fn run_case(c: &Case, ctx: &mut WorkerCtx) -> Outcome {
                 rest = &rest[l..];
             }
         }
-        sent_all.extend_from_slice(&bytes);
         if !cli.send_split(&bytes, &cuts).await {
             stall = Some("client write failed".into());
             break;
         }
-        for _ in 0..n_ready {
-            let (_m, e) = cli.read_until_ready(wire::T_REPLY).await;
+        for i in 0..n_ready {
+            let before = cli.rx_all.len() - cli.pending_bytes().len();
+            let (m, e) = cli.read_until_ready(wire::T_REPLY).await;
             if !matches!(e, ReadEnd::Ready(_)) {
                 stall = Some(format!("reply to a pipelined/simple request ended {:?}", e));
                 break 'groups;
+            }
+            if kinds.get(i).cloned().unwrap_or(false) {
+                // a lone Sync must be answered by exactly one ReadyForQuery
+                let after = cli.rx_all.len() - cli.pending_bytes().len();
+                if m.len() != 1 || m[0].code != b'Z' {
+                    lone_sync_bad = Some(format!("a lone Sync was answered with {:?}", m.iter().map(|x| x.code as char).collect::<String>()));
+                }
+                lone_ranges.push((before, after));
             }
         }
         if let Some((chunks, fail, tag)) = copy_in {
@@ -387,9 +425,11 @@ async fn run_case(c: &Case, ctx: &mut WorkerCtx) -> Outcome {
     let mut midstream = false;
     for e in &log {
         match &e.kind {
-            EvKind::Rx { raw, own, .. } => {
-                own_rx.insert(e.seq, *own);
-                if !*own {
+            EvKind::Rx { raw, own, code, snap, .. } => {
+                // a Sync outside any batch = a forwarded lone Sync (forwarding it or not is don't-care)
+                let lone = *code == b'S' && !snap.batch_open;
+                own_rx.insert(e.seq, *own || lone);
+                if !*own && !lone {
                     srv_rx.extend_from_slice(raw);
                 }
             }
@@ -413,6 +453,7 @@ async fn run_case(c: &Case, ctx: &mut WorkerCtx) -> Outcome {
                 Rq::Q(v) => midstream |= v.iter().any(|x| !x.notice_at.is_empty() || x.pstatus_at.is_some() || x.err_at.is_some()),
                 Rq::B(v) => midstream |= v.iter().any(|(x, _, _)| !x.notice_at.is_empty() || x.pstatus_at.is_some() || x.err_at.is_some()),
                 Rq::CopyOut { notice_at, .. } => midstream |= !notice_at.is_empty(),
+                Rq::LoneSync => {}
                 _ => {}
             }
         }
@@ -423,8 +464,26 @@ async fn run_case(c: &Case, ctx: &mut WorkerCtx) -> Outcome {
     o.nontrivial = big || header_split || midstream || copy || pipelined;
     o.sub_evaluations = c.groups.iter().map(|g| g.rqs.len() as u64).sum();
 
-    let cli_rx = &cli.rx_all[rx_start..];
+    let mut cli_rx_v: Vec<u8> = vec![];
+    {
+        let mut pos = rx_start;
+        for (a, b) in &lone_ranges {
+            if *a >= pos {
+                cli_rx_v.extend_from_slice(&cli.rx_all[pos..*a]);
+                pos = *b;
+            }
+        }
+        cli_rx_v.extend_from_slice(&cli.rx_all[pos..]);
+    }
+    let cli_rx = &cli_rx_v[..];
     let _ = extra;
+    if lone_sync_sent > 0 {
+        o.label("lone_sync");
+    }
+    if let Some(b) = lone_sync_bad {
+        o.fail("lone-sync-reply", b);
+        return o;
+    }
     // the server must have received a prefix-exact copy of what the client sent (exact when no stall)
     let n = srv_rx.len().min(sent_all.len());
     if srv_rx[..n] != sent_all[..n] {
